@@ -387,6 +387,8 @@ def render(events):
             def sub(m):
                 a = args.pop(0)
                 spec = m.group(1) or ""
+                if a[0] == "raw":
+                    return a[1]          # text that is already rendered (a bool, the Debug form of a composite value)
                 if a[0] == "float":
                     # Rust's f64: Display prints an integral value without a fraction (2), Debug with one (2.0)
                     try:
